@@ -121,6 +121,13 @@ impl RawIdentity {
 }
 
 pub async fn raw_connect(addr: SocketAddr, id: &RawIdentity) -> Result<quinn::Connection, String> {
+    raw_connect_opt(addr, id, None).await
+}
+/// like `raw_connect`, with a small connection-level receive window
+pub async fn raw_connect_window(addr: SocketAddr, id: &RawIdentity, window: u32) -> Result<quinn::Connection, String> {
+    raw_connect_opt(addr, id, Some(window)).await
+}
+async fn raw_connect_opt(addr: SocketAddr, id: &RawIdentity, window: Option<u32>) -> Result<quinn::Connection, String> {
     let mut roots = rustls::RootCertStore::empty();
     roots.add(&rustls::Certificate(id.ca_der.clone())).map_err(|e| e.to_string())?;
     let b = rustls::ClientConfig::builder().with_safe_defaults().with_root_certificates(roots);
@@ -133,6 +140,9 @@ pub async fn raw_connect(addr: SocketAddr, id: &RawIdentity) -> Result<quinn::Co
     let mut cfg = quinn::ClientConfig::new(Arc::new(crypto));
     let mut tc = quinn::TransportConfig::default();
     tc.keep_alive_interval(Some(Duration::from_secs(5)));
+    if let Some(w) = window {
+        tc.receive_window(quinn::VarInt::from_u32(w));
+    }
     cfg.transport_config(Arc::new(tc));
     ep.set_default_client_config(cfg);
     let connecting = ep.connect(addr, "localhost").map_err(|e| e.to_string())?;
